@@ -819,6 +819,11 @@ def gen_lvalue_write(node, code, codegen):
 def gen_lvalue_ref(node, code, codegen):
     assert isinstance(node, expr.Lvalue)
 
+    if node.implicit_decl and node.implicit_decl.type.is_array:
+        # first use of an array that was never DIMmed: like a read
+        # or an assignment, a reference to an element creates it
+        gen_static_array_init(node.implicit_decl, code, codegen)
+
     if node.array_indices:
         for i, aidx in enumerate(node.array_indices):
             codegen.gen_code_for_node(aidx, code)
